@@ -253,6 +253,18 @@ def sample_state(mjm, rng, infos):
 # ------------------------------------------------------------------------------------ reference
 
 
+def judge(rec, name, got, ref, allow, noise=0.0, sig_prefix="", ctx=""):
+  """cmp.judge, except that a non-finite MJWarp value carries the plain field signature (NaN vs finite garbage is not
+  reproducible from run to run, the mechanism is the same)."""
+  g = np.asarray(got, dtype=np.float64)
+  r = np.asarray(ref, dtype=np.float64)
+  if g.size == r.size and r.size and np.all(np.isfinite(r)) and not np.all(np.isfinite(g)):
+    rec.check()
+    rec.viol(f"{sig_prefix}{name}", f"{name}: MJWarp value not finite where MuJoCo's is {ctx}")
+    return "viol"
+  return cmp.judge(rec, name, got, ref, allow, noise, sig_prefix=sig_prefix, ctx=ctx)
+
+
 def stage(mjm, mjd):
   mujoco.mj_forward(mjm, mjd)
 
@@ -398,10 +410,10 @@ def run_case(case):
         g, r = g[e_len], r[e_len]
       elif k == "flexedge_velocity":
         g, r = g[e_jac], r[e_jac]
-      cmp.judge(rec, k, g, r, A, noise[k], sig_prefix=CL, ctx=ctx)
+      judge(rec, k, g, r, A, noise[k], sig_prefix=CL, ctx=ctx)
     gJ = dense_edge_J(mjm, eJ[w], rn, ra, ci)
     rec.cover("flex_edges_with_reference_jacobian", int(e_jac.sum()))
-    cmp.judge(rec, "flexedge_J", gJ[e_jac], ref["flexedge_J"][e_jac], A, noise["flexedge_J"], sig_prefix=("jointed-parent:" if jointed_parent else CL), ctx=ctx)
+    judge(rec, "flexedge_J", gJ[e_jac], ref["flexedge_J"][e_jac], A, noise["flexedge_J"], sig_prefix=("jointed-parent:" if jointed_parent else CL), ctx=ctx)
     # the two silently ignored passive mechanisms: exactly one signature each, decided on the mechanism itself
     for flag_, name, fld in ((edge_spring, "flex_edgestiffness", "qfrc_spring"), (edge_damp, "flex_edgedamping", "qfrc_damper")):
       if flag_ and not jointed_parent:
@@ -498,13 +510,13 @@ def run_case(case):
             # nearest position among same-key contacts
             gi = min(gis, key=lambda i: np.abs(con["pos"][i] - c.pos).max())
             nz = max(noise["flexvert_xpos"], 1e-9)
-            cok &= "ok" == cmp.judge(rec, "contact.dist", con["dist"][gi], c.dist, 1e-5, 10 * nz, sig_prefix=combo(key) + ":", ctx=f"{ctx} key {key}")
-            cok &= "ok" == cmp.judge(rec, "contact.pos", con["pos"][gi], c.pos, 1e-5, 10 * nz, sig_prefix=combo(key) + ":", ctx=f"{ctx} key {key}")
-            cok &= "ok" == cmp.judge(rec, "contact.normal", np.asarray(con["frame"][gi]).reshape(3, 3)[0], np.asarray(c.frame)[:3], 1e-4, 1e3 * nz, sig_prefix=combo(key) + ":", ctx=f"{ctx} key {key}")
-            cok &= "ok" == cmp.judge(rec, "contact.includemargin", con["includemargin"][gi], c.includemargin, 1e-6, 0, sig_prefix=combo(key) + ":", ctx=f"{ctx} key {key}")
-            cok &= "ok" == cmp.judge(rec, "contact.friction", con["friction"][gi], c.friction, 1e-6, 0, sig_prefix=combo(key) + ":", ctx=f"{ctx} key {key}")
-            cok &= "ok" == cmp.judge(rec, "contact.solref", con["solref"][gi], c.solref, 1e-6, 0, sig_prefix=combo(key) + ":", ctx=f"{ctx} key {key}")
-            cok &= "ok" == cmp.judge(rec, "contact.solimp", con["solimp"][gi], c.solimp, 1e-6, 0, sig_prefix=combo(key) + ":", ctx=f"{ctx} key {key}")
+            cok &= "ok" == judge(rec, "contact.dist", con["dist"][gi], c.dist, 1e-5, 10 * nz, sig_prefix=combo(key) + ":", ctx=f"{ctx} key {key}")
+            cok &= "ok" == judge(rec, "contact.pos", con["pos"][gi], c.pos, 1e-5, 10 * nz, sig_prefix=combo(key) + ":", ctx=f"{ctx} key {key}")
+            cok &= "ok" == judge(rec, "contact.normal", np.asarray(con["frame"][gi]).reshape(3, 3)[0], np.asarray(c.frame)[:3], 1e-4, 1e3 * nz, sig_prefix=combo(key) + ":", ctx=f"{ctx} key {key}")
+            cok &= "ok" == judge(rec, "contact.includemargin", con["includemargin"][gi], c.includemargin, 1e-6, 0, sig_prefix=combo(key) + ":", ctx=f"{ctx} key {key}")
+            cok &= "ok" == judge(rec, "contact.friction", con["friction"][gi], c.friction, 1e-6, 0, sig_prefix=combo(key) + ":", ctx=f"{ctx} key {key}")
+            cok &= "ok" == judge(rec, "contact.solref", con["solref"][gi], c.solref, 1e-6, 0, sig_prefix=combo(key) + ":", ctx=f"{ctx} key {key}")
+            cok &= "ok" == judge(rec, "contact.solimp", con["solimp"][gi], c.solimp, 1e-6, 0, sig_prefix=combo(key) + ":", ctx=f"{ctx} key {key}")
             rec.check()
             if int(con["dim"][gi]) != int(c.dim):
               rec.viol(combo(key) + ":contact.dim", f"{ctx}: contact dim {int(con['dim'][gi])} vs {int(c.dim)} key {key}")
@@ -562,9 +574,9 @@ def run_case(case):
               gi = min(gis, key=lambda i: np.abs(G["J"][i] - R["J"][ri]).max() + abs(G["pos"][i] - R["pos"][ri]))
               gis.remove(gi)
               jscale = 100 if not is_eq else 10
-              rok &= "ok" == cmp.judge(rec, "efc.J", G["J"][gi], R["J"][ri], 1e-4, jscale * nzJ, sig_prefix=rowcls(key), ctx=f"{ctx} row {ri} key {key}")
-              rok &= "ok" == cmp.judge(rec, "efc.pos", G["pos"][gi], R["pos"][ri], 1e-5, 10 * nzJ, sig_prefix=rowcls(key), ctx=f"{ctx} row {ri} key {key}")
-              rok &= "ok" == cmp.judge(rec, "efc.D", G["D"][gi] / max(1.0, abs(R["D"][ri])), R["D"][ri] / max(1.0, abs(R["D"][ri])), 1e-4, 0, sig_prefix=rowcls(key), ctx=f"{ctx} row {ri} key {key}")
+              rok &= "ok" == judge(rec, "efc.J", G["J"][gi], R["J"][ri], 1e-4, jscale * nzJ, sig_prefix=rowcls(key), ctx=f"{ctx} row {ri} key {key}")
+              rok &= "ok" == judge(rec, "efc.pos", G["pos"][gi], R["pos"][ri], 1e-5, 10 * nzJ, sig_prefix=rowcls(key), ctx=f"{ctx} row {ri} key {key}")
+              rok &= "ok" == judge(rec, "efc.D", G["D"][gi] / max(1.0, abs(R["D"][ri])), R["D"][ri] / max(1.0, abs(R["D"][ri])), 1e-4, 0, sig_prefix=rowcls(key), ctx=f"{ctx} row {ri} key {key}")
     if rows_match and not rok:
       rows_match = False
     # ---- gated post-solver comparison
@@ -572,7 +584,7 @@ def run_case(case):
     if gated:
       rec.count("worlds_gated")
       sc = max(1.0, float(np.abs(ref["qacc"]).max()))
-      cmp.judge(rec, "qacc", got["qacc"][w][: mjm.nv] / sc, ref["qacc"] / sc, 1e-3, noise["qacc"] / sc, sig_prefix=CL + ("sparse" if m.is_sparse else "dense") + "-" + mujoco.mjtSolver(int(mjm.opt.solver)).name[6:].lower() + ":", ctx=ctx)
+      judge(rec, "qacc", got["qacc"][w][: mjm.nv] / sc, ref["qacc"] / sc, 1e-3, noise["qacc"] / sc, sig_prefix=CL + ("sparse" if m.is_sparse else "dense") + "-" + mujoco.mjtSolver(int(mjm.opt.solver)).name[6:].lower() + ":", ctx=ctx)
     else:
       rec.count("worlds_ungated")
   for f in feat:
